@@ -140,6 +140,20 @@ def gen_pipeline_stages():
         raise ExtractError("types.rs: StageOutput no longer derives Clone")
     if not re.search(r"enum\s+StageOutput\s*\{[^}]*Compiled\s*\(\s*Box<Function>\s*,\s*Heap\s*,", ty, flags=re.S):
         raise ExtractError("types.rs: StageOutput::Compiled no longer carries (Box<Function>, Heap, ..)")
+    # the cache key: every component of the source (name, content) must go into the hasher WITH a delimiter --
+    # `<str>.hash(&mut h)` (str::hash appends a terminator byte) or a length written before the raw bytes;
+    # raw `h.write(x.as_bytes())` of two components in a row only hashes their concatenation
+    ch = strip_comments(rd("driver/src/pipeline/cache.rs"))
+    sh = _fn_body(ch, "source_hash")
+    comps = {}
+    for comp in ("name", "content"):
+        via_hash = bool(re.search(r"source\s*\.\s*" + comp + r"\s*\.\s*hash\s*\(", sh))
+        raw = re.search(r"\.write\s*\(\s*source\s*\.\s*" + comp + r"\s*\.\s*as_bytes\(\)", sh)
+        with_len = bool(raw and re.search(r"source\s*\.\s*" + comp + r"\s*\.\s*len\(\)[^;]*;[^;]*source\s*\.\s*" + comp + r"\s*\.\s*as_bytes", sh, flags=re.S))
+        if not via_hash and not raw:
+            raise ExtractError(f"cache.rs::source_hash: the source {comp} no longer reaches the hasher in a recognised way")
+        comps[comp] = via_hash or with_len
+    key_delimited = all(comps.values())
     heap = strip_comments(rd("bytecode/src/heap/mod.rs"))
     body = _impl_body(heap, "Clone", "Heap")
     if body is None:
@@ -160,6 +174,8 @@ def gen_pipeline_stages():
                f"Definition cacheable_stages_stateless : bool := {'true' if ok else 'false'}.\n")
     out.append(f'Definition compile_break_name : string := "{brk}".\n')
     out.append(f"(* `impl Clone for Heap`: clone() is `Self::new()` *)\nDefinition heap_clone_is_empty : bool := {'true' if empty else 'false'}.\n")
+    out.append("(* source_hash feeds the name and the content to the hasher each with a delimiter (str::hash / length prefix) *)\n"
+               f"Definition cache_key_components_delimited : bool := {'true' if key_delimited else 'false'}.\n")
     out.append("(* does the cache ever hold a StageOutput::Compiled (whose clone is not faithful)? *)\n"
                f"Definition compiled_outputs_are_cached : bool := {'true' if compiled_cached else 'false'}.\n")
     return write_if_changed("PipelineStages.v", "".join(out))
